@@ -1165,9 +1165,26 @@ def _local_lambdas(fn):
             par, fld = holder[name]
             setattr(par, fld, [s for s in getattr(par, fld) if s is not d]
                     or [ast.Pass()])
+    _star_dicts(fn)
+
+
+def _star_dicts(fn):
     # f(**d) with d a local dict literal / dict(...) call
     dicts = {}
-    for st in fn.body:
+    owner = {}
+    for par_ in ast.walk(fn):
+        if par_ is not fn and isinstance(par_, (ast.FunctionDef, ast.Lambda,
+                                                ast.ClassDef)):
+            continue
+        for fld_ in ("body", "orelse", "finalbody"):
+            blk_ = getattr(par_, fld_, None)
+            if isinstance(blk_, list):
+                for s_ in blk_:
+                    if isinstance(s_, ast.stmt):
+                        owner[id(s_)] = blk_
+    stmts_ = [s_ for blk_ in {id(b_): b_ for b_ in owner.values()}.values()
+              for s_ in blk_]
+    for st in stmts_:
         if isinstance(st, ast.Assign) and len(st.targets) == 1 and isinstance(
                 st.targets[0], ast.Name):
             v = st.value
@@ -1196,7 +1213,22 @@ def _local_lambdas(fn):
                 k.arg is None and isinstance(k.value, ast.Name)
                 and k.value.id == name)] + [
                     ast.keyword(arg=a, value=v) for a, v in items]
-            fn.body = [s for s in fn.body if s is not st]
+            if id(st) in owner and st in owner[id(st)]:
+                owner[id(st)].remove(st)
+        elif len(star) > 1 and len(uses) == len(star) + 1 and all(
+                isinstance(v, ast.Constant) for _, v in items) and \
+                id(st) in owner and st in owner[id(st)]:
+            # a table of constant options forwarded to several calls
+            for c in star:
+                c.keywords = [k for k in c.keywords if not (
+                    k.arg is None and isinstance(k.value, ast.Name)
+                    and k.value.id == name)] + [
+                        ast.keyword(arg=a, value=clone(v))
+                        for a, v in items]
+            owner[id(st)].remove(st)
+    for blk_ in owner.values():
+        if not blk_:
+            blk_.append(ast.Pass())
     ast.fix_missing_locations(fn)
 
 
@@ -2465,6 +2497,7 @@ def normalize_module(tree: ast.Module, extern=None) -> ast.Module:
             n2.chainmap_locals(n)
             n2.exitstack_rollback(n)
             n2.exitstack_enter(n)
+            _star_dicts(n)
             n2.conditional_arguments(n)
             n2.sink_selected_calls(n)
             n2.specialise_strategies(n)
@@ -2490,6 +2523,7 @@ def normalize_module(tree: ast.Module, extern=None) -> ast.Module:
                     if not n2.propagate_local_constants(n):
                         break
                 n2.local_partials(n)
+                _star_dicts(n)
                 n2.conditional_arguments(n)
                 n2.fuse_collect_loops(n)
                 n2.fuse_collect_into_comprehension(n)
